@@ -371,7 +371,8 @@ def dispatch_case(case):
             vtab.append([_clean(n), [jmap[id(t)] for t in ts], vid(v)])
     ctab, ftab = [], []
     for t, j in zip(toks, jt):
-        tests = [lambda: parse_color(t) is not None, lambda: vp.border_width([t]) is not None,
+        color = vp.outline_color if name == 'outline' else vp.other_colors
+        tests = [lambda: color([t]) is not None, lambda: vp.border_width([t]) is not None,
                  lambda: vp.border_style([t]) is not None, lambda: vp.column_width([t]) is not None,
                  lambda: vp.column_count([t]) is not None, lambda: vp.flex_basis([t]) is not None]
         mask = 0
@@ -438,15 +439,10 @@ def _style(envtext):
 
 
 def _resolve_all(style, tokens):
-    from weasyprint.css import resolve_var
-    solved = []
-    for token in tokens:
-        r = resolve_var(style, token, None)
-        if r is None:
-            solved.append(token)
-        else:
-            solved.extend(r)
-    return solved
+    """what ComputedStyle.__missing__ does with the tokens of a pending value; raises InvalidValues when the
+    value is invalid at computed-value time"""
+    from weasyprint import css
+    return css.resolve_vars(style, tokens, None)
 
 
 def var_case(case):
@@ -455,7 +451,7 @@ def var_case(case):
     declarations of one element - and each on a style of its own.
     -> dict(env=[[stored key, tokens]], items=[dict(tokens, code, out, site, alone=[code, out])])"""
     import tinycss2
-    from weasyprint.css.utils import remove_whitespace
+    from weasyprint.css.utils import InvalidValues, remove_whitespace
     atoms = {}
     style = _style(case['env'])
     jenv = [[_clean(k), [tok_json(t, atoms) for t in v[0]]] for k, v in style.cascaded.items()]
@@ -468,6 +464,8 @@ def var_case(case):
             code, out, site = 0, [], None
             try:
                 out = [tok_json(t, atoms) for t in _resolve_all(st, tokens)]
+            except InvalidValues:
+                code = 4
             except RecursionError as exc:
                 code, site = 2, _site(exc)
             except Exception as exc:   # noqa
@@ -671,12 +669,15 @@ def pending_seq(case):
     calls, shared, fresh = [], [], []
     for c in case['calls']:
         key = keys[c['key'] % len(keys)]
-        solved = _resolve_all(_style(c['env']), obj.tokens)
+        try:
+            solved = _resolve_all(_style(c['env']), obj.tokens)
+        except InvalidValues:
+            continue          # invalid before solve() is reached: not a call on the object
         # the trace of the validator on the substituted tokens
         items, end = [], 0
         try:
             if is_property:
-                for k, v in validate_non_shorthand(solved, obj.name):
+                for k, v in validate_non_shorthand(solved, obj.name, obj.base_url):
                     items.append([_clean(k), vid(v)])
             else:
                 for k, v in obj.validator(solved):
@@ -765,7 +766,7 @@ def shared_pair(case):
     verdicts = [sub is not None and accepted(d['prop'], sub) for e in case['elems'] for d, sub in zip(case['decls'], e['subst'])]
     res.update(a=a, b=b, valid=verdicts, mechanism=None)
     if not res['same']:
-        for partial, erase in ((True, False), (False, True), (True, True)):
+        for partial, erase in ((False, True),):
             c, used = reference(partial, erase)
             if used and c != b and fingerprint_pair({'a': a, 'b': c})['same']:
                 res['mechanism'] = sorted(used)
